@@ -257,7 +257,7 @@ NClear(i) ==
 OldFinCalls == IF att \/ dir THEN FinCalls(slots) \o (IF err > 0 THEN <<FinCall(err)>> ELSE <<>>) ELSE <<>>
 OldFinSet   == IF att \/ dir THEN {slots[i].tok : i \in Live} \cup (IF err > 0 THEN {err} ELSE {}) ELSE {}
 FreshDisp(a) ==
-  /\ kind' = "none" /\ slots' = <<>> /\ def' = Zero /\ err' = -1 /\ tab' = << >>
+  /\ kind' = "none" /\ slots' = <<>> /\ def' = Zero /\ err' = -1 /\ tab' = << >> /\ snap' = NoSnap
   /\ fin' = FinUp(OldFinSet) /\ UNCHANGED <<ntok, ever>>
   /\ obs' = [a |-> a, arg |-> [x |-> 0],
              exp |-> [ret |-> "ok", calls |-> OldFinCalls, def |-> Zero, table |-> <<>>]]
@@ -272,7 +272,7 @@ NAttach ==
 (* was in place is finalised first, as mpt_notify_dispatch and mpt++ set_handler do                            *)
 NDirect ==
   /\ att' = FALSE /\ dir' = TRUE
-  /\ kind' = "none" /\ slots' = <<>> /\ def' = Zero /\ err' = NewTok /\ tab' = << >>
+  /\ kind' = "none" /\ slots' = <<>> /\ def' = Zero /\ err' = NewTok /\ tab' = << >> /\ snap' = NoSnap
   /\ ntok' = NewTok /\ ever' = ever \cup {NewTok}
   /\ fin' = FinUp(OldFinSet) @@ (NewTok :> 0)
   /\ obs' = [a |-> "direct", arg |-> [x |-> 0],
